@@ -33,6 +33,7 @@ def _bad(kind, enc):
         'bad-value-primary-bitmap-only': e('1240') + bm([4], False) + e('00000000ABCD'),
         'unknown-bit-no-low-elements': e('1240') + bm([9 + 2], False) + e('12345678'),
         'undecodable-mti': b'\xff\xfe12' + bm([2]) + e('0512345'),
+        'bad-typed-value-long-record': e('1240') + bm([4, 72]) + e('00000000ABCD') + e('999') + e('X' * 999),
     }[kind]
 
 
